@@ -4,7 +4,8 @@
    rows are compared with the model enumeration as multisets (each assignment exactly once); composites / mixins are
    compared with the model applied to the child's recorded result. *)
 From Coq Require Import List ZArith QArith Qcanon Bool Arith.
-From Dimod Require Import Base.Util Model.Poly Model.HPoly Model.Samples Model.Comb Model.Feas Gen.Gen_ExactHoc Model.Solve.
+From Dimod Require Import Base.Util Model.Poly Model.HPoly Model.Samples Model.Comb Model.Feas Gen.Gen_ExactHoc Model.Solve
+     Gen.Gen_Deferred Model.Deferred Model.ParseInit.
 Import ListNotations.
 Open Scope Qc_scope.
 
@@ -135,12 +136,23 @@ Inductive case :=
             (res : result) (feas : list bool)
 | CComp (k : comp) (child res : result)
 | CMixin (d : mixdir) (n : nat) (vars : list label) (submitted sent : poly) (child res : result)
+(* a stack of single-method samplers (innermost first: direction and the problem that level's
+   .sample received) over a base whose implemented method answered with a sample set built on a
+   future of the given kind: was the returned set still pending, and what did it resolve to *)
+| CStack (kind : fkind) (pending_seen : bool) (vars : list label) (levels : list (mixdir * poly))
+         (base res : result)
 (* the deterministic remainder of the stochastic samplers, on the rows they returned *)
 | CFromRows (pr : problem) (vars : list label) (res : result)
 | CSa (binary : bool) (vars : list label) (p : poly) (res : result)
 | CNull (vars : list label) (res : result)
 | CIdentity (g : isg) (num_reads : option nat) (pr : problem) (vars ls : list label) (conv : nat)
             (init : list (list Qc)) (seen : option result)
+(* Initialized.parse_initial_states on the argument AS GIVEN: not given, or (the vartype a SampleSet
+   declares - None for raw states, whose vartype the model infers from the values -, labels, rows) *)
+| CParse (g : isg) (num_reads : option nat) (pr : problem) (spin : bool) (vars : list label)
+         (init : option (option bool * list label * list (list Qc))) (seen : option result)
+(* SimulatedAnnealingSampler's argument tests: ValueError exactly when the model rejects *)
+| CSaCall (num_reads : Z) (beta_range : option (list Qc)) (num_sweeps : Z) (raised : bool)
 (* what the sample_ising / sample_qubo mixin of a composite handed to its own sample method *)
 | CEntry (n : nat) (qubo : bool) (h : list lterm) (J : list qterm) (observed : poly)
 (* sample_hising(h, J) / sample_hubo(H) / sample_poly: the polynomial the outermost layer received is
@@ -209,6 +221,31 @@ Definition check_identity (g : isg) (num_reads : option nat) (e : sample -> Qc) 
   | _, _ => false
   end.
 
+Definition vt2_of (spin : bool) : vt2 := if spin then VSpin else VBinary.
+
+Definition check_parse (g : isg) (num_reads : option nat) (e : sample -> Qc) (spin : bool) (vars : list label)
+           (init : option (option bool * list label * list (list Qc))) (seen : option result) : bool :=
+  let n_init := match init with Some (_, _, rows) => length rows | None => O end in
+  let ls := match init with Some (_, ls, _) => ls | None => vars end in
+  let extra := match seen with
+               | Some r => skipn n_init (map (reindex_row ls (r_labels r)) (r_rows r))
+               | None => []
+               end in
+  let init' := match init with
+               | Some (d, ls, rows) => Some (mkInit (option_map vt2_of d) ls rows)
+               | None => None
+               end in
+  match parse_initial_states g num_reads e (vt2_of spin) vars init' extra, seen with
+  | None, None => true
+  | Some m, Some r =>
+      res_equiv m r &&
+      (length (r_rows r) =? match num_reads with
+                            | Some n => n
+                            | None => match n_init with O => 1 | k => k end
+                            end)%nat
+  | _, _ => false
+  end.
+
 Definition check_mixin (d : mixdir) (n : nat) (vars : list label) (submitted sent : poly)
            (child res : result) : bool :=
   match d with
@@ -224,6 +261,18 @@ Definition check_mixin (d : mixdir) (n : nat) (vars : list label) (submitted sen
       poly_coeff_eqb n (drop_offset submitted) sent &&
       res_equiv (change_vartype (fun r => r) (p_off submitted) child) res
   end.
+
+Definition level_of (vars : list label) (l : mixdir * poly) : level * Qc :=
+  match fst l with
+  | SpinViaQubo => (LSpinViaQubo, fwd_off gen_mixin_forwards_offset (p_off (to_binary_all vars (snd l))))
+  | BinaryViaIsing => (LBinaryViaIsing, fwd_off gen_mixin_forwards_offset (p_off (to_spin_all vars (snd l))))
+  | SameVartype => (LSame, fwd_off gen_mixin_forwards_offset (p_off (snd l)))
+  end.
+
+Definition check_stack (kind : fkind) (pending_seen : bool) (vars : list label)
+           (levels : list (mixdir * poly)) (base res : result) : bool :=
+  let s := stack_ss (map (level_of vars) levels) (base_ss kind base) in
+  Bool.eqb (negb (ss_done s)) pending_seen && res_equiv (ss_resolve s) res.
 
 Definition check (c : case) : bool :=
   match c with
@@ -257,6 +306,7 @@ Definition check (c : case) : bool :=
       end
   | CComp k child res => check_comp k child res
   | CMixin d n vars submitted sent child res => check_mixin d n vars submitted sent child res
+  | CStack kind pending_seen vars levels base res => check_stack kind pending_seen vars levels base res
   | CFromRows pr vars res =>
       res_equiv (from_samples_bqm (prob_energy pr) vars (r_labels res) (r_rows res)) res
   | CSa binary vars p res =>
@@ -265,6 +315,10 @@ Definition check (c : case) : bool :=
   | CNull vars res => res_equiv (null_sample vars) res
   | CIdentity g num_reads pr vars ls conv init seen =>
       check_identity g num_reads (prob_energy pr) vars ls conv init seen
+  | CParse g num_reads pr spin vars init seen =>
+      check_parse g num_reads (prob_energy pr) spin vars init seen
+  | CSaCall num_reads beta_range num_sweeps raised =>
+      Bool.eqb (negb (sa_validate num_reads beta_range num_sweeps)) raised
   | CEntry n qubo h J observed =>
       poly_coeff_eqb n (if qubo then from_qubo J else ising_poly h J) observed
   | CPostRaw raw vars res =>
